@@ -34,7 +34,7 @@ pub fn edit_list(ch: &mut Ch, sigs: &mut Vec<Sig>, b: &Built, log: &mut Vec<Stri
     }
     let i = ch.upto(sigs.len());
     let virt = b.analysis.virtuals.clone();
-    match ch.upto(14) {
+    match ch.upto(15) {
         0 => {
             let new = ["ZZ", "A", "Q", "n", "IO_out", "Q_out"][ch.upto(6)].to_string();
             log.push(format!("rename {} -> {new}", sigs[i].name));
@@ -176,6 +176,19 @@ pub fn edit_list(ch: &mut Ch, sigs: &mut Vec<Sig>, b: &Built, log: &mut Vec<Stri
                 }
             }
         }
+        13 => {
+            // a read output called <x>_out becomes the `_out` column of a bidirectional <x>: the
+            // column is still legal, the identifier no longer names a signal
+            if let Some(r) = b.analysis.reads.iter().find(|r| r.ends_with("_out") && sigs.iter().any(|s| s.name == **r && matches!(s.kind, Kind::Out))).cloned() {
+                let stem = r.strip_suffix("_out").unwrap().to_string();
+                if !sigs.iter().any(|s| s.name == stem) {
+                    log.push(format!("replace the read output {r} by a bidirectional {stem}"));
+                    let at = sigs.iter().position(|s| s.name == r).unwrap();
+                    let bits = sigs[at].bits;
+                    sigs[at] = Sig { name: stem, bits, kind: Kind::Bidir(InVal::Z) };
+                }
+            }
+        }
         _ => {
             log.push(format!("rewidth {}", sigs[i].name));
             sigs[i].bits = 1 + ch.upto(64);
@@ -188,7 +201,7 @@ impl Property for C11 {
         "C11"
     }
     fn rule(&self) -> &'static str {
-        "profile `fit`: a generated program with device reads, C columns, virtual signals, bidirectional and shared columns, total expressions; its fitted signal list, then 0-2 edits of the list (rename, drop, duplicate also with the other direction, flip direction, add an unrelated signal, reorder, rename to a virtual's name, name<->name_out, make a read name an input, make a C column an output, add an input called <output>_out, take the input away from under a shared `<b>_out` column that holds C, make an output that a declare reads and that is also a variable's name an input, change a width). Oracle: the four clauses of the statement evaluated on the model with an independent static scope analysis (one frame per loop/repeat, none for while, let visible after its right-hand side, counter invisible in the bound, declare blind to variables) vs Ok/Err of with_signals; if Ok, the test is iterated to the end with an honest driver and any panic or error item is a violation. Non-trivial: accepted with >= 1 of {read output, C column, virtual, bidirectional}, or rejected by an edit; distinct by source + list."
+        "profile `fit`: a generated program with device reads, C columns, virtual signals, bidirectional and shared columns, total expressions; its fitted signal list, then 0-2 edits of the list (rename, drop, duplicate also with the other direction, flip direction, add an unrelated signal, reorder, rename to a virtual's name, name<->name_out, make a read name an input, make a C column an output, add an input called <output>_out, take the input away from under a shared `<b>_out` column that holds C, make an output that a declare reads and that is also a variable's name an input, replace a read output called <x>_out by a bidirectional <x>, change a width). Oracle: the four clauses of the statement evaluated on the model with an independent static scope analysis (one frame per loop/repeat, none for while, let visible after its right-hand side, counter invisible in the bound, declare blind to variables) vs Ok/Err of with_signals; if Ok, the test is iterated to the end with an honest driver and any panic or error item is a violation. Non-trivial: accepted with >= 1 of {read output, C column, virtual, bidirectional}, or rejected by an edit; distinct by source + list."
     }
     fn cases(&self, tier: Tier) -> u64 {
         match tier {
